@@ -32,25 +32,25 @@ type FuncSig struct {
 }
 
 type Univ struct {
-	sortNames map[string]string // go type string -> sort
-	usedNames map[string]bool
-	structs   map[string]*StructInfo // by sort name
-	dtOrder   []string               // datatype declaration order
-	dtDecl    map[string]string
-	sigs      map[string]*FuncSig // prelude + generated function signatures
-	prelude   []string            // prelude chunks (after datatypes)
-	consts    []string            // declare-const lines
-	constSort map[string]string
-	strLits   map[string]string // literal -> const name
-	strOrder  []string
-	boxes     map[string]int // sort -> tag for iface boxing
-	boxOrder  []string
-	typeTags  map[string]int // go type string -> tag
-	nfresh    int
-	facts     []string // global facts about generated constants
+	sortNames   map[string]string // go type string -> sort
+	usedNames   map[string]bool
+	structs     map[string]*StructInfo // by sort name
+	dtOrder     []string               // datatype declaration order
+	dtDecl      map[string]string
+	sigs        map[string]*FuncSig // prelude + generated function signatures
+	prelude     []string            // prelude chunks (after datatypes)
+	consts      []string            // declare-const lines
+	constSort   map[string]string
+	strLits     map[string]string // literal -> const name
+	strOrder    []string
+	boxes       map[string]int // sort -> tag for iface boxing
+	boxOrder    []string
+	typeTags    map[string]int // go type string -> tag
+	nfresh      int
+	facts       []string // global facts about generated constants
 	typeTagDefs []string
-	inProg    map[string]bool
-	marshals  map[string]bool
+	inProg      map[string]bool
+	marshals    map[string]bool
 }
 
 func NewUniv() *Univ {
